@@ -9,7 +9,7 @@ use linfa::traits::Transformer;
 use linfa_linalg::{lobpcg::TruncatedSvd, Order};
 use linfa_reduction::{Pca, ReductionError};
 use ndarray::{Array1, Array2, Axis, ShapeBuilder};
-use rand::{rngs::SmallRng, SeedableRng};
+use rand::{rngs::SmallRng, Rng, SeedableRng};
 use vh::*;
 
 fn arr(rows: &[Vec<f64>], p: usize, fortran: bool) -> Array2<f64> {
@@ -52,7 +52,8 @@ fn run_fit(x: &Array2<f64>, q: &Array2<f64>, k: usize, whiten: bool) -> Res {
     let r = guarded(move || {
         let n = x2.nrows();
         let targets: Array1<usize> = (0..n).collect();
-        let ds = DatasetBase::new(x2.clone(), targets.clone());
+        let weights: Array1<f32> = (0..n).map(|i| 1.0 + i as f32 * 0.5).collect();
+        let ds = DatasetBase::new(x2.clone(), targets.clone()).with_weights(weights.clone());
         let model = match Pca::params(k).whiten(whiten).fit(&ds) {
             Ok(m) => m,
             Err(ReductionError::NotEnoughSamples) => return Res::ErrNotEnough,
@@ -66,7 +67,7 @@ fn run_fit(x: &Array2<f64>, q: &Array2<f64>, k: usize, whiten: bool) -> Res {
         let ptrain = model.predict(&x2);
         let transform_same = tds.records().shape() == ptrain.shape()
             && tds.records().iter().zip(ptrain.iter()).all(|(a, b)| a.to_bits() == b.to_bits());
-        let targets_kept = tds.targets() == &targets;
+        let targets_kept = tds.targets() == &targets && tds.weights().map_or(false, |w| w == weights.as_slice().unwrap());
         Res::Ok(FitOut {
             mean: model.mean().to_vec(),
             sigma: model.singular_values().to_vec(),
@@ -104,6 +105,40 @@ fn raw_svd(x: &Array2<f64>, k: usize) -> Result<(Vec<f64>, Vec<Vec<f64>>), Strin
     }
 }
 
+/// what LOBPCG itself reported for that call: a replica of `TruncatedSvd::decompose` (n > p branch:
+/// operator X^T X, random f32 start block from SmallRng(42), tolerance (1e-5)^2, maxiter 2n) that keeps
+/// the status `decompose` throws away.  -> (status, eigenvalues) with status "ok" (all residual norms
+/// below the tolerance), "budget" (Ok returned with residuals above the tolerance: iteration budget
+/// exhausted), "err" (an error with a partial result, which decompose turns into Ok), "fail"
+fn lobpcg_status(x: &Array2<f64>, k: usize) -> (String, Vec<f64>) {
+    let x2 = x.clone();
+    match guarded(move || {
+        let mean = x2.mean_axis(Axis(0)).unwrap();
+        let xc = &x2 - &mean;
+        let (n, m) = (xc.nrows(), xc.ncols());
+        if n <= m {
+            return ("n_le_p".to_string(), vec![]);
+        }
+        let mut rng = SmallRng::seed_from_u64(42);
+        let x0: Array2<f32> = Array2::from_shape_fn((usize::min(n, m), k), |_| rng.gen::<f32>());
+        let x0 = x0.mapv(|v| v as f64);
+        let precision: f32 = 1e-5;
+        let tol = precision * precision;
+        let res = linfa_linalg::lobpcg::lobpcg(|y| xc.t().dot(&xc.dot(&y)), x0, |_| {}, None, tol, n * 2, Order::Largest);
+        match res {
+            Ok(r) => {
+                let conv = r.rnorm.iter().all(|v| *v <= tol as f64);
+                ((if conv { "ok" } else { "budget" }).to_string(), r.eigvals.to_vec())
+            }
+            Err((_, Some(r))) => ("err".to_string(), r.eigvals.to_vec()),
+            Err((_, None)) => ("fail".to_string(), vec![]),
+        }
+    }) {
+        Ok(r) => r,
+        Err(_) => ("panic".to_string(), vec![]),
+    }
+}
+
 fn rotate(rng: &mut Sm64, rows: &mut [Vec<f64>], p: usize, times: usize) {
     if p < 2 {
         return;
@@ -124,7 +159,7 @@ fn rotate(rng: &mut Sm64, rows: &mut [Vec<f64>], p: usize, times: usize) {
     }
 }
 
-const FAMILIES: [&str; 7] = ["isotropic", "anisotropic", "lowrank_noise", "lowrank_exact", "offset", "badscale", "lattice"];
+const FAMILIES: [&str; 8] = ["isotropic", "anisotropic", "lowrank_noise", "lowrank_exact", "offset", "badscale", "lattice", "tiny"];
 
 fn gen_data(rng: &mut Sm64, n: usize, p: usize, fam: usize) -> Vec<Vec<f64>> {
     let mut rows: Vec<Vec<f64>> = (0..n).map(|_| (0..p).map(|_| rng.gauss()).collect()).collect();
@@ -174,6 +209,16 @@ fn gen_data(rng: &mut Sm64, n: usize, p: usize, fam: usize) -> Vec<Vec<f64>> {
                     r[j] = r[j] * sc + off;
                 }
             }
+        }
+        7 => {
+            // tiny overall scale with a geometric spectrum: singular values straddle the 1e-8 floor of pca.rs
+            let sc = f64::powi(10.0, -(rng.range(7, 9) as i32));
+            for r in rows.iter_mut() {
+                for j in 0..p {
+                    r[j] *= sc * f64::powi(3.0, -(j as i32));
+                }
+            }
+            rotate(rng, &mut rows, p, p);
         }
         _ => {
             // small integer lattice: exact sums, repeated rows, tied eigenvalues are likely
@@ -258,6 +303,16 @@ fn main() {
             let whiten = r.chance(0.5);
             let res = run_fit(&xa, &qa, k, whiten);
             let svd = raw_svd(&xa, k);
+            let (status, evals) = lobpcg_status(&xa, k);
+            // the replica is trusted only if it reproduces the solver's singular values bit for bit
+            let faithful = match &svd {
+                Ok((ss, _)) => {
+                    let mut e = evals.clone();
+                    e.sort_by(|a, b| b.partial_cmp(a).unwrap_or(std::cmp::Ordering::Equal));
+                    ss.len() <= e.len() && ss.iter().zip(e.iter()).all(|(s, v)| s.to_bits() == v.sqrt().to_bits())
+                }
+                Err(_) => false,
+            };
             let kcls = if k == 1 { "k_1" } else if k == p { "k_full" } else { "k_interior" };
             let mut tags: Vec<String> = vec![
                 format!("family_{}", FAMILIES[fam]),
@@ -280,7 +335,30 @@ fn main() {
                 Res::Ok(f) => {
                     if probe {
                         let (o, rz, rs) = f64_diag(&x, &f, n);
-                        eprintln!("PROBE id={} fam={} n={} p={} k={} m={} w={} orth={:.2e} ritz={:.2e} res={:.2e} svd_ok={}", id, FAMILIES[fam], n, p, k, f.sigma.len(), whiten, o, rz, rs, svd.is_ok());
+                        eprintln!("PROBE id={} fam={} n={} p={} k={} m={} w={} orth={:.2e} ritz={:.2e} res={:.2e} svd_ok={} status={} faithful={}", id, FAMILIES[fam], n, p, k, f.sigma.len(), whiten, o, rz, rs, svd.is_ok(), status, faithful);
+                    }
+                    {
+                        // trace of the centred Gram matrix: at or below the solver's absolute residual tolerance
+                        // (precision^2 = 1e-10) LOBPCG accepts its random start block as converged
+                        let mut tr = 0.0;
+                        for j in 0..p {
+                            let mj: f64 = x.iter().map(|r| r[j]).sum::<f64>() / n as f64;
+                            tr += x.iter().map(|r| (r[j] - mj) * (r[j] - mj)).sum::<f64>();
+                        }
+                        if tr <= 1e-10 {
+                            tags.push("gram_trace_le_1e-10".into());
+                            out.bump("gram_trace_le_1e-10");
+                        }
+                    }
+                    out.bump(&format!("lobpcg_{}{}", status, if faithful { "" } else { "_unfaithful_replica" }));
+                    if faithful && status != "ok" {
+                        tags.push(format!("lobpcg_{}", status));
+                    }
+                    if let Ok((ss, _)) = &svd {
+                        if ss.iter().any(|s| *s < 1e-8) {
+                            tags.push("sigma_below_floor".into());
+                            out.bump("sigma_below_floor");
+                        }
                     }
                     if f.sigma.len() < k {
                         tags.push("truncated".into());
@@ -288,7 +366,7 @@ fn main() {
                     }
                     if !f.transform_same || !f.targets_kept {
                         let tr: Vec<&str> = tags.iter().map(|s| s.as_str()).collect();
-                        out.rust_fail(id, 1 << 20, &tr, "Transformer::transform differs from predict on the records or drops the targets", &format!("{{{}}}", desc_head));
+                        out.rust_fail(id, 1 << 20, &tr, "Transformer::transform differs from predict on the records or drops the targets / weights", &format!("{{{}}}", desc_head));
                     }
                     let (has_svd, ss, sv) = match &svd {
                         Ok((s, v)) => (true, s.clone(), v.clone()),
@@ -372,5 +450,5 @@ fn main() {
         out.case(id, &coq, &tags, &desc, Some(fnv(format!("bad {} {} {}", n, p, k).as_bytes())));
         id += 1;
     }
-    out.finish("record matrices n > p >= 1 (p <= 8) from 7 families (isotropic, rotated strongly anisotropic, low rank + noise, exact low rank, large offsets, badly scaled columns, half-integer lattice) in C or Fortran layout; every embedding size 1..p per matrix, whitening drawn per fit; plus malformed requests (empty dataset, size 0, p+1, far outside); distinct = distinct (data, size, whitening, layout) hashes");
+    out.finish("record matrices n > p >= 1 (p <= 8) from 8 families (isotropic, rotated strongly anisotropic, low rank + noise, exact low rank, large offsets, badly scaled columns, half-integer lattice, tiny scale around the 1e-8 sigma floor) in C or Fortran layout; every embedding size 1..p per matrix, whitening drawn per fit; plus malformed requests (empty dataset, size 0, p+1, far outside); distinct = distinct (data, size, whitening, layout) hashes");
 }
